@@ -23,8 +23,8 @@ FUNCTIONS = ["handedness", "are_planar", "angle_from_coords", "_tetrahedral_from
              "StereoMolGraph.from_geometry", "StereoCondensedReactionGraph.from_geometries"]
 BOUNDS = {"quick": "kernels: all real coordinates (4 / 6 points); perception functions: ids unbounded, template coordinates, all neighbour orders for Tet/SP, strided for "
                    "TBP/Oct; graphs: 5 templates (CHFClBr, PtHFClBr, PHFClBrI, S-HFClBrIO, HFC=CClBr) x atom reorderings (all for <= 5 atoms, else 24 seeded) x 24 cube "
-                   "rotations x 3 translations x reflection x 4 noise patterns (eps 0.03 A); one reaction triple moved independently",
-          "thorough": "all neighbour orders for TBP, 144 for Oct; 12 noise patterns"}
+                   "rotations x 3 translations x reflection x 4 noise patterns (eps 0.03 A); one reaction triple moved independently; second reaction template H3N + CH3Cl (9 atoms, TS carbon with three H at 1.07 A) in 24 seeded atom orders; zig-zag chains of 33..257 atoms rotated / translated / re-ordered",
+          "thorough": "all neighbour orders for TBP, 144 for Oct; 12 noise patterns; 60 atom orders of the methyl template; 8 orders of each chain"}
 OUTSIDE = ("continuous noise and arbitrary rotation angles end-to-end (non-linear real robustness queries are not decided by z3/cvc5 within minutes); rotation invariance of the "
            "are_planar decision (nlsat undecided); geometries within the band where are_planar depends on the order of the four points")
 ASSUMPTIONS = ["floating point evaluation agrees in sign with exact arithmetic away from decision boundaries (the property's 'general position')",
@@ -229,6 +229,72 @@ def reaction_body(rot_r, rot_p, rot_t, tr, perm):
     return None
 
 
+def _methyl_transfer():
+    """H3N + CH3-Cl -> H3N-CH3 + Cl: the TS carbon has five neighbours, three of them hydrogens at 1.07 A in one plane"""
+    import math
+    els = ["C", "H", "H", "H", "Cl", "N", "H", "H", "H"]
+    def ring(radius, z, phase=0.0):
+        return [[radius * math.cos(phase + 2 * math.pi * k / 3), radius * math.sin(phase + 2 * math.pi * k / 3), z] for k in range(3)]
+    def nh3(zn):
+        return [[0, 0, zn]] + [[x, y, zn + 0.35] for x, y, _ in ring(0.95, 0, 0.5)]
+    r = np.array([[0, 0, 0]] + ring(1.03, 0.36) + [[0, 0, -1.78]] + nh3(3.3), float)
+    ts = np.array([[0, 0, 0]] + ring(1.07, 0.0) + [[0, 0, -2.35]] + nh3(2.0), float)
+    pr = np.array([[0, 0, 0]] + ring(1.03, -0.36) + [[0, 0, -3.4]] + nh3(1.48), float)
+    return els, r, pr, ts
+
+
+def methyl_body(rot_r, rot_t, tr, perm):
+    """second reaction template (nine atoms), reactant / product / TS moved independently, atoms listed in seeded orders"""
+    from stereomolgraph.coords import Geometry
+    from stereomolgraph.graphs.scrg import StereoCondensedReactionGraph as S
+    els, r, pr, ts = _methyl_transfer()
+    ref = S.from_geometries(Geometry(els, r), Geometry(els, pr), Geometry(els, ts))
+    sref = gl.snap(ref)
+    if sum(1 for b in sref["bonds"] if 0 in b) != 5 or not sref["achg"].get(0):
+        return f"harness error: the TS carbon of the methyl-transfer template is not five-coordinate with a stereo change: {sref['bonds'].keys()} {sref['achg']}"
+    p = _perm_of(9, perm, seed=5)
+    def move(x, rot):
+        return (x @ geom.CUBE[rot].T + geom.TRANSLATIONS[tr])[p]
+    e2 = [els[i] for i in p]
+    try:
+        g2 = S.from_geometries(Geometry(e2, move(r, rot_r)), Geometry(e2, move(pr, (rot_r * 5 + 1) % 24)), Geometry(e2, move(ts, rot_t)))
+    except Exception as e:
+        return f"from_geometries raised {type(e).__name__}: {e}"
+    inv = {old: new for new, old in enumerate(p)}
+    expected = ref.relabel_atoms(inv, copy=True)
+    if not (g2 == expected and expected == g2):
+        return (f"methyl transfer: reaction graph from moved geometries with atom order {list(p)} != renamed reference: "
+                f"{gl.snap(g2)['achg']} vs {gl.snap(expected)['achg']}; bonds {sorted(map(sorted, gl.snap(g2)['bonds']))} vs {sorted(map(sorted, gl.snap(expected)['bonds']))}")
+    return None
+
+
+CHAIN_SIZES = [33, 127, 129, 131, 200, 257]
+
+
+def chain_body(ni, rot, tr, order):
+    """larger systems: zig-zag chain C/C/S/N of CHAIN_SIZES[ni] atoms, rotated, translated and listed in a seeded order: the graph is the reference renamed"""
+    import random
+    from stereomolgraph.coords import Geometry
+    from stereomolgraph.graphs.mg import MolGraph
+    n = CHAIN_SIZES[ni]
+    els = [(6, 6, 16, 7)[i % 4] for i in range(n)]
+    pos = np.array([[1.26 * i, 0.8 * (i % 2), 0.05 * (i % 3)] for i in range(n)], float)
+    ref = MolGraph.from_geometry(Geometry(els, pos))
+    if len(ref.bonds) != n - 1:
+        return f"chain of {n} atoms (consecutive atoms 1.5 A apart, all other pairs beyond 2.5 A) gets {len(ref.bonds)} bonds instead of {n - 1}"
+    p = list(range(n))
+    if order:
+        random.Random(order * 977 + n).shuffle(p)
+    moved = (pos @ geom.CUBE[rot].T + geom.TRANSLATIONS[tr])[p]
+    g = MolGraph.from_geometry(Geometry([els[i] for i in p], moved))
+    inv = {old: new for new, old in enumerate(p)}
+    exp_bonds = {frozenset((inv[a], inv[b])) for a, b in map(tuple, ref.bonds)}
+    if set(g.bonds) != exp_bonds or [g.get_atom_type(a) for a in g.atoms] != [ref.get_atom_type(p[a]) for a in g.atoms]:
+        return (f"chain of {n} atoms, rotation {rot}, translation {tr}, atom order seed {order}: {len(set(g.bonds) ^ exp_bonds)} bonds differ from the "
+                f"renamed reference, e.g. {sorted(map(sorted, set(g.bonds) ^ exp_bonds))[:3]}")
+    return None
+
+
 def plan(tier, seed):
     units = [Nat(name="kernels_all_reals", func="vp.shadow.geomlemmas:run_c07", timeout=1500)]
     for kind in KINDS:
@@ -254,6 +320,13 @@ def plan(tier, seed):
     rp = {"rot_r": (0, 24), "rot_p": (0, 24), "rot_t": (0, 24), "tr": (0, 3), "perm": (0, 6)}
     rpre = ["rot_r % 6 == 0 and rot_p % 5 == 0 and rot_t % 7 == 0"] if tier == "quick" else ["rot_r % 2 == 0 and rot_p % 3 == 0 and rot_t % 4 == 1"]
     units.append(Sel(name="from_geometries", func="vp.props.C07:reaction_body", params=rp, pre=rpre, shard_by=[], timeout=1500))
+    units.append(Sel(name="from_geometry_chains", func="vp.props.C07:chain_body",
+                     params={"ni": (0, len(CHAIN_SIZES)), "rot": (0, 24), "tr": (0, 3), "order": (0, 3 if tier == "quick" else 8)},
+                     pre=["rot % 6 == 1"] if tier == "quick" else ["rot % 2 == 1"], shard_by=[], timeout=1500, nontrivial="order > 0"))
+    units.append(Sel(name="from_geometries_methyl", func="vp.props.C07:methyl_body",
+                     params={"rot_r": (0, 24), "rot_t": (0, 24), "tr": (0, 3), "perm": (0, 24 if tier == "quick" else 60)},
+                     pre=["rot_r % 8 == 0 and rot_t % 6 == 1 and tr < 2"] if tier == "quick" else ["rot_r % 4 == 0 and rot_t % 3 == 1"], shard_by=[], timeout=1500,
+                     nontrivial="perm > 0"))
     return units
 
 
